@@ -70,13 +70,16 @@ def handleEig : P String := do
   let maxIter ← P.nat
   let tolExp ← P.nat
   let tol : Float := Float.exp (Float.log 10.0 * (0.0 - Float.ofNat tolExp))
+  -- the implementation saw every weight divided by `wden` (same f64 division here): decimal weights
+  let wden ← P.nat
+  let scal : Scalar Float := if wden ≤ 1 then floatScalar else { floatScalar with ofW := fun w => floatScalar.ofW w / Float.ofNat wden }
   let rest ← get
   let (so, a) := buildBoth sp nodes edges
   match so with
   | .err k => set ([] : List Int); pure s!"m.build=E{k.code}"
   | .panic _ => set ([] : List Int); pure "m.build=P"
   | .ok s =>
-    let r := s.eigenvector weighted maxIter tol
+    let r := s.eigenvectorG scal weighted maxIter tol (1.0 / 0.0)
     let mval : String := match r with
       | .ok ⟨some x, _, _⟩ => pFloatMap x
       | .ok ⟨none, _, _⟩ => "E9"
@@ -105,7 +108,7 @@ def handleEig : P String := do
         | .panic _ => if code == -1 then "1" else "model-panic"
       -- specification (C18): only Ok answers on single-edge graphs are constrained
       let entries : List (Nat × Nat × Float) := a.edges.flatMap fun e =>
-        let w : Float := if !weighted || e.w.isNan then 1.0 else wFloat e.w
+        let w : Float := if !weighted || e.w.isNan then 1.0 else (if wden ≤ 1 then wFloat e.w else wFloat e.w / Float.ofNat wden)
         if sp.directed || e.u == e.v then [(e.u, e.v, w)] else [(e.u, e.v, w), (e.v, e.u, w)]
       let ok : String :=
         if code == 0 then (match checkEigen a.nodeNames entries tol ix with | none => "1" | some c => c)
